@@ -59,13 +59,20 @@ SHAPES_BASE = [
     '"s t" z',     # 8 quoted string: token value differs from its lexeme
     "g ? h",       # 9 illegal character inside the line
     "?",           # 10 illegal character in column 1
+    # blanks other than ' ' and tab that str.splitlines() (but not split('\n'), the only line
+    # separator of the property and of get_orig_text) takes for a line boundary, between tokens
+    "j\x0ck",            # 11 form feed
+    "l\x85\u2028m",      # 12 NEL, LINE SEPARATOR
+    "n \x0b\r\x1c o",    # 13 vertical tab, lone carriage return, file separator
+    # optional parts behind a token: ':' present, two empty children behind it / '!' only / all
+    "p: q! u:!;",        # 14
 ]
 SHAPES_SPAN = [
-    "/* c */ d",   # 11 opener and closer on the same line, token behind it
-    "e /* o",      # 12 opener behind a token, closes on a later line
-    "m */ f",      # 13 closer inside the line, token behind it
-    "*/",          # 14 closer in column 1
-    "/*",          # 15 opener in column 1
+    "/* c */ d",   # opener and closer on the same line, token behind it
+    "e /* o",      # opener behind a token, closes on a later line
+    "m */ f",      # closer inside the line, token behind it
+    "*/",          # closer in column 1
+    "/*",          # opener in column 1
 ]
 ALL_SHAPES = SHAPES_BASE + SHAPES_SPAN
 
@@ -77,20 +84,23 @@ _BASE_RE = r'''
     |(?P<PLUS>\+)
     |(?P<COMMA>,)
     |(?P<SEMI>;)
+    |(?P<COLON>:)
+    |(?P<BANG>!)
 '''
 _SPAN_RE = _BASE_RE + r'''    |(?P<COMMENT_ML>/\*)
 '''
 
 _ID = {'SPACE': 'SPACE', 'WORD': 'WORD', 'NUM': 'NUM', 'STR': 'DQ', 'PLUS': 'PLUS', 'COMMA': 'COMMA',
-       'SEMI': 'SEMI'}
+       'SEMI': 'SEMI', 'COLON': 'COLON', 'BANG': 'BANG'}
 
 CONFIGS = {
     'plain': {'re': _BASE_RE, 'synonyms': None, 'keywords': None, 'span_matchers': None,
               'names': dict(_ID), 'kw': False, 'span': False, 'nshapes': len(SHAPES_BASE)},
     'synonyms': {'re': _BASE_RE,
-                 'synonyms': {'PLUS': '+', 'COMMA': ',', 'SEMI': ';', 'DQ': 'STRING'},
+                 'synonyms': {'PLUS': '+', 'COMMA': ',', 'SEMI': ';', 'DQ': 'STRING', 'COLON': ':',
+                              'BANG': '!'},
                  'keywords': None, 'span_matchers': None,
-                 'names': dict(_ID, PLUS='+', COMMA=',', SEMI=';', STR='STRING'),
+                 'names': dict(_ID, PLUS='+', COMMA=',', SEMI=';', STR='STRING', COLON=':', BANG='!'),
                  'kw': False, 'span': False, 'nshapes': len(SHAPES_BASE)},
     'keywords': {'re': _BASE_RE, 'synonyms': None, 'keywords': {('WORD', 'if'): 'IF'},
                  'span_matchers': None, 'names': dict(_ID, KW='IF'), 'kw': True, 'span': False,
@@ -136,7 +146,8 @@ def mk_case(cfg, mode, idx):
 # --------------------------------------------------------------------------------------
 # the oracle: reference scanner of the harness' token language
 
-_WS = ' \t'
+_WS = ' \t\x0b\x0c\r\x1c\x1d\x1e\x85\u2028\u2029'     # blanks of the shapes; '\\n' alone separates lines
+_LINE_BREAK_LIKE = '\x0b\x0c\r\x1c\x1d\x1e\x85\u2028\u2029'
 _LOW = 'abcdefghijklmnopqrstuvwxyz_'
 _DIG = '0123456789'
 
@@ -206,6 +217,10 @@ def ref_scan(lines, cfg):
                 kind = 'COMMA'
             elif ch == ';':
                 kind = 'SEMI'
+            elif ch == ':':
+                kind = 'COLON'
+            elif ch == '!':
+                kind = 'BANG'
             elif ch == '/' and c['span'] and line[i + 1:i + 2] == '*':
                 opened = (ln, i + 1)
                 i += 2
@@ -238,8 +253,12 @@ def _grammar(cfg, span_leaf):
     return {
         'E': [('ITEMS',)],
         'ITEMS': [('ITEM', 'ITEMS'), None],
-        'ITEM': [('OPT_SIGN', 'ATOM', 'TAIL')],
+        # behind ATOM: one, two or three consecutive children that may match nothing (TAIL as a whole
+        # is one of them), followed in the texts by skipped blanks / a line break / a comment
+        'ITEM': [('OPT_SIGN', 'ATOM', 'OPT_COLON', 'OPT_BANG', 'TAIL')],
         'OPT_SIGN': [(nm['PLUS'],), None],
+        'OPT_COLON': [(nm['COLON'],), None],
+        'OPT_BANG': [(nm['BANG'],), None],
         'ATOM': atom,                                   # ('WORD','NUM') / ('WORD',) get factorized
         'TAIL': [('OPT_COMMA', 'OPT_SEMI')],            # inner node that may match nothing
         'OPT_COMMA': [(nm['COMMA'],), None],
@@ -440,6 +459,11 @@ def check_case(case):
     res.nontrivial = len(lines) >= 2 or any(r.kind == 'COMMENT' for r in ref)
     if mode == 'list':
         res.hits.add('list-of-lines-input')
+    for r_prev, r_next in zip(ref, ref[1:]):
+        if r_prev.kind == 'SPACE' and any(ch in _LINE_BREAK_LIKE for ch in r_prev.lexeme):
+            res.hits.add('blank-that-splitlines-breaks-at-inside-a-line')
+            if mode == 'str' and r_next.start[0] == r_prev.start[0]:
+                res.hits.add('token-behind-such-a-blank-in-str-input')
     tk, parsers = built(cfg)
     if isinstance(tk, BaseException):
         res.diag("tokenizer cannot be built", f"_Tokenizer for configuration {cfg} cannot be built: {describe_exc(tk)}")
@@ -631,6 +655,7 @@ def _check_tree(res, root, text, lines, pairs, end_obs, ctx, where, cleaned):
         if r.kind == 'COMMENT':
             res.hits.add('span-token-as-tree-leaf')
 
+    below = {id(n): i1 - i0 for n, i0, i1, kids in nodes}     # number of tokens below each node
     for n, i0, i1, kids in nodes:
         st, en = span_of(n)
         what = f"node {n.name}"
@@ -697,6 +722,15 @@ def _check_tree(res, root, text, lines, pairs, end_obs, ctx, where, cleaned):
             fs, le = lspans[i0][0], lspans[i1 - 1][1]
             if kids and kids[-1].is_leaf() and kids[-1].value is None:
                 res.hits.add('inner-node-with-empty-last-child')
+            ntrail = 0
+            for c in reversed(kids):
+                if below[id(c)] != 0:
+                    break
+                ntrail += 1
+            if ntrail >= 2 and le < following(i1):
+                res.hits.add('two-trailing-empty-children-before-skipped-text')
+            if ntrail >= 3 and le < following(i1):
+                res.hits.add('three-trailing-empty-children-before-skipped-text')
             if kids and kids[0].is_leaf() and kids[0].value is None:
                 res.hits.add('inner-node-with-empty-first-child')
             toks_txt = " ".join(repr(pairs[k][1].lexeme) for k in range(i0, i1))
@@ -719,7 +753,9 @@ REACH = ['first-on-line-token-without-leading-whitespace', 'span-closing-on-late
          'lexical-error-on-line>1', 'list-of-lines-input', 'empty-node-before-end-of-text',
          'empty-node-before-first-token-of-line', 'inner-node-that-matched-nothing',
          'inner-node-with-empty-last-child', 'inner-node-with-empty-first-child',
-         'span-token-as-tree-leaf']
+         'span-token-as-tree-leaf', 'two-trailing-empty-children-before-skipped-text',
+         'three-trailing-empty-children-before-skipped-text',
+         'blank-that-splitlines-breaks-at-inside-a-line', 'token-behind-such-a-blank-in-str-input']
 
 
 def _size(case):
